@@ -138,11 +138,14 @@ inductive SrvStep
   | decode
   | shutdown
   | readErr
+  /-- `W<n>`: the transport accepts `n` reply writes and fails the next one -/
+  | failAfter (n : Nat)
 
 def parseSrvScript (s : String) : List SrvStep :=
   if s = "-" then []
   else (s.splitOn ",").map fun st =>
-    if st.startsWith "!" then
+    if st.startsWith "W" then .failAfter ((String.ofList st.toList.tail).toNat?.getD 0)
+    else if st.startsWith "!" then
       if st = "!s" then .shutdown else if st = "!x" then .readErr else .decode
     else .data ((ofHex st).getD [])
 
@@ -151,6 +154,8 @@ structure SrvAcc where
   calls : List Call := []
   hs : List (Nat × Points)
   ended : Option String := none
+  /-- reply writes the transport still accepts before one fails (`none`: no fault armed) -/
+  wleft : Option Nat := none
 
 def frameReply (rtu : Bool) (f : Frame) (pdu : Bytes) : Bytes :=
   if rtu then Rtu.format f.dest pdu else Mbap.format (f.tx.getD 0) f.dest pdu
@@ -162,11 +167,19 @@ def srvEvents (respond : List (Nat × Points) → Frame → FrameOut Points) (rt
   | .err e :: _ => { acc with ended := some (frameErrStr e) }
   | .frame f :: rest =>
     let o := respond acc.hs f
-    let acc' := { acc with
-      tx := acc.tx ++ (match o.reply with | some p => frameReply rtu f p | none => []),
-      calls := acc.calls ++ o.calls,
-      hs := o.states }
-    srvEvents respond rtu acc' rest
+    match o.reply, acc.wleft with
+    | some _, some 0 =>
+      -- the write of this reply fails: the request was executed, the session ends
+      { acc with calls := acc.calls ++ o.calls, hs := o.states, ended := some "io.pipe", wleft := none }
+    | reply, wleft =>
+      let acc' := { acc with
+        tx := acc.tx ++ (match reply with | some p => frameReply rtu f p | none => []),
+        calls := acc.calls ++ o.calls,
+        hs := o.states,
+        wleft := match reply, wleft with
+          | some _, some n => some (n - 1)
+          | _, w => w }
+      srvEvents respond rtu acc' rest
 
 /-- the session: reader state threaded through the deliveries -/
 def srvLoop {σ : Type} (parse : ParseFn σ)
@@ -176,6 +189,7 @@ def srvLoop {σ : Type} (parse : ParseFn σ)
   | st, rb, acc, step :: rest =>
     match step with
     | .decode => srvLoop parse respond rtu st rb acc rest
+    | .failAfter n => srvLoop parse respond rtu st rb { acc with wleft := some n } rest
     | .shutdown => { acc with ended := some "shutdown" }
     | .readErr => { acc with ended := some "io.reset" }
     | .data bs =>
@@ -201,8 +215,8 @@ def runSrv (tok : List String) : String × String :=
     let steps := parseSrvScript script
     let al := parseAliases units
     let go (respond : List (Nat × Points) → Frame → FrameOut Points) : String :=
-      let acc := if rtu then srvLoop (Rtu.parse .request) respond rtu .start RB.empty ⟨[], [], hs, none⟩ steps
-                 else srvLoop Mbap.parse respond rtu .begin RB.empty ⟨[], [], hs, none⟩ steps
+      let acc := if rtu then srvLoop (Rtu.parse .request) respond rtu .start RB.empty ⟨[], [], hs, none, none⟩ steps
+                 else srvLoop Mbap.parse respond rtu .begin RB.empty ⟨[], [], hs, none, none⟩ steps
       srvOut { acc with calls := acc.calls.map (relabelCall al) }
     -- model: `runSession` (event-based formulation); specification: the reference server
     -- `Spec.Server.respond` driven by the reader threaded through the deliveries
@@ -210,12 +224,20 @@ def runSrv (tok : List String) : String × String :=
       | .data bs => SessStep.data bs
       | .decode => SessStep.setDecode {}
       | .shutdown => SessStep.shutdown
+      | .failAfter _ => SessStep.setDecode {}     -- the fault position is a parameter of `runSessionW`
       | .readErr => SessStep.readErr) ++ [SessStep.eof]
-    let o := runSession (if rtu then .rtu else .tcp) cfg {} hs script
-    let endStr := match o.ended with
+    let kindStr : EndKind → String := fun k => match k with
       | .eof => "io.eof" | .reset => "io.reset" | .shutdown => "shutdown"
       | .badFrame e => frameErrStr e | .running => "running"
-    let model := srvOut ⟨o.tx, o.calls.map (relabelCall al), o.states, some endStr⟩
+    -- a leading `W<n>` selects the fault model `runSessionW`; otherwise `runSession`
+    let model := match steps with
+      | .failAfter n :: _ =>
+        let o := runSessionW (if rtu then .rtu else .tcp) cfg {} n hs script
+        let endStr := match o.ended with | .kind k => kindStr k | .writeErr => "io.pipe"
+        srvOut ⟨o.tx, o.calls.map (relabelCall al), o.states, some endStr, none⟩
+      | _ =>
+        let o := runSession (if rtu then .rtu else .tcp) cfg {} hs script
+        srvOut ⟨o.tx, o.calls.map (relabelCall al), o.states, some (kindStr o.ended), none⟩
     (model, go (Spec.Server.respond cfg))
   | _ => ("bad-case", "bad-case")
 
